@@ -77,6 +77,8 @@ def gen_case(rng, arm, tier, k=0):
             # a fold without any class-0 sample (e.g. 1-based labels): legal for every call
             # whose predictions stay within the labels' range
             Ym = [y + 1 for y in Ym]
+        elif rng.random() < 0.08:
+            Ym = [Ym[0]] * n  # every sample carries the same label (fit completes, there is nothing to predict with)
         Xm = gen_matrix(rng, n, d, style)
         if rng.random() < 0.12:
             # finite values so large that squares overflow (1e200): still the caller's data
@@ -156,6 +158,10 @@ def gen_case(rng, arm, tier, k=0):
             n = len(mats[k]["X"])
             mk = rng.randint(1, min(4, n - 1))
             ops.append(["prefit", rng.choice(("supervised", "knn", "unsup")), k, mk, rng.randint(1, mk), rng.random() < 0.6])
+        elif arm == "mixed" and rng.random() < 0.06:
+            # identifiers that only name the samples, in arrays the caller owns (not ascending)
+            ka, kb = rng.randrange(len(mats)), rng.randrange(len(mats))
+            ops.append(["idfit", rng.choice(("supervised", "knn", "unsup")), metric_for([mats[ka]["style"], mats[kb]["style"]]), ka, kb, rng.randint(1, 3)])
         elif arm == "mixed" and rng.random() < 0.05:
             # one model object: fit, predict some rows, then predict other rows (twice)
             sl, ka, kb, kc = rng.randrange(2), rng.randrange(len(mats)), rng.randrange(len(mats)), rng.randrange(len(mats))
@@ -202,6 +208,7 @@ class World:
             self.pres = [arr(p_).reshape(len(p_), len(p_)) for p_ in case.get("pres", [])]
             self.slot_specs = case.get("slots", [])
             self.new_models()
+            self.make_ids()
             return
         self.layouts = [m.get("layout", "c") for m in case["mats"]] + [v.get("layout", "c") for v in case["vecs"]]
         made = [lay_out(arr(m["X"]).reshape(len(m["X"]), case["d"]), m.get("layout", "c")) for m in case["mats"]]
@@ -231,6 +238,14 @@ class World:
             self.pres.append(P)
         self.slot_specs = case.get("slots", [])
         self.new_models()
+        self.make_ids()
+
+    def make_ids(self):
+        # one identifier array per matrix: a fixed non-ascending arrangement of distinct values
+        self.ids = []
+        for mi, X in enumerate(self.mats):
+            n = len(X)
+            self.ids.append(np.array([(7 * i + 3 + mi) % n + 10 * (mi + 1) for i in range(n)] if n % 7 else [n - 1 - i + 10 * (mi + 1) for i in range(n)], dtype=np.int64))
 
     def clone(self):
         w = World.__new__(World)
@@ -245,6 +260,7 @@ class World:
         w.pres = [p_.copy() for p_ in self.pres]
         w.slot_specs = self.slot_specs
         w.new_models()
+        w.ids = [a.copy() for a in self.ids]
         return w
 
     def new_models(self):
@@ -253,7 +269,7 @@ class World:
 
     def buffers(self):
         # the *owning* buffers: a write outside the view the caller handed over counts too
-        return [("mat%d" % i, m) for i, m in enumerate(self.mat_bases)] + [("lab%d" % i, y) for i, y in enumerate(self.labs)] + [("vec%d" % i, v) for i, v in enumerate(self.vec_bases)] + [("pre%d" % i, p_) for i, p_ in enumerate(self.pres)]
+        return [("mat%d" % i, m) for i, m in enumerate(self.mat_bases)] + [("lab%d" % i, y) for i, y in enumerate(self.labs)] + [("vec%d" % i, v) for i, v in enumerate(self.vec_bases)] + [("pre%d" % i, p_) for i, p_ in enumerate(self.pres)] + [("ids%d" % i, a) for i, a in enumerate(self.ids)]
 
     def get(self, r):
         if r[0] == "vec":
@@ -375,6 +391,18 @@ def execute(op, w, scratch, tag, dealias=False):
         p = (m.predict(X, I), p_tail)
         m.pre_distances = None
         return (st_fit, g, p)
+    if kind == "idfit":
+        _, mkind, metric, k, k2, max_k = op
+        k %= len(w.mats)
+        k2 %= len(w.mats)
+        X, Y, I = w.mats[k], w.labs[k], w.ids[k]
+        n = len(X)
+        m = make_model(mkind, metric, max(1, min(max_k, n - 1)), 1)
+        if mkind == "knn":
+            m.fit(X, Y, w.mats[k2], w.labs[k2], I, w.ids[k2])
+        else:
+            m.fit(X, Y, I)
+        return (m, m.predict(w.mats[k2], w.ids[k2]))
     if kind in ("mfit", "mpredict"):
         _, slot, k, k2, use_labels = op
         slot %= len(w.models)
@@ -441,6 +469,8 @@ def sg_state(sg):
 
 
 def touched(op, w):
+    if op[0] == "idfit":
+        return {"mat%d" % (op[3] % len(w.mats)), "mat%d" % (op[4] % len(w.mats)), "ids%d" % (op[3] % len(w.mats)), "ids%d" % (op[4] % len(w.mats))}
     if op[0] == "dist32":
         return {w.bufname(op[2]), w.bufname(op[3])}
     if op[0] == "prefit":
@@ -463,6 +493,8 @@ def touched(op, w):
 
 
 def op_label(op):
+    if op[0] == "idfit":
+        return ("idfit", op[1], op[2])
     if op[0] == "mutate":
         return ("mutate",)
     if op[0] == "dist32":
@@ -633,6 +665,8 @@ def run_case(case):
             for k, op, lab, mclass, ok, a, exc, ver, prep in sample:
                 snap = snapshots[ver]
                 req = {"c07": True, "d": case["d"], "mats": [m.tolist() for m in snap.mats], "labs": [y.tolist() for y in snap.labs], "vecs": [v.tolist() for v in snap.vecs], "pres": [p_.tolist() for p_ in snap.pres], "slots": case.get("slots", []), "layouts": snap.layouts, "op": op}
+                if op[0] == "idfit":
+                    continue
                 rep = c19.restart_query(req)
                 bump(out.faults, "restart_fresh_interpreter")
                 if "error" in rep:
